@@ -36,7 +36,7 @@ COMPONENTS = {"real": ["amaranth.hdl elaboration (Fragment.prepare, _create_miss
               "stub": ["PermSet scheduler seam (insertion / seeded / shipped hash order)", "wall clock (patched)",
                        "scratch directory for extraction"]}
 EXPECTED_PROBES = ("hashseed", "restart", "clockjump", "implicit_domains_ge2", "reset_after_timeline_fired",
-                   "reset_inside_critical", "double_reset", "name_clash", "anonymous_submodule")
+                   "reset_inside_critical", "double_reset", "name_clash", "anonymous_submodule", "local_domain")
 CHUNK = 1
 STEP_KEYS = ("recipes", "steps")
 
@@ -84,6 +84,8 @@ def gen_recipe(rng):
         if depth < 3:
             for _ in range(rng.choice([0, 0, 1, 2, 3])):
                 m["subs"].append({"name": rng.choice([None, None, "u", "v", "x", "u"]), "m": gen_module(depth + 1)})
+        # a submodule may define a *local* domain of a name that siblings (added before or after it) use without defining it
+        m["local"] = rng.choice(doms) if (depth > 0 and rng.random() < 0.15) else None
         return m
 
     top = gen_module(0)
@@ -99,6 +101,9 @@ def build_recipe(recipe):
 
     def mk(spec):
         m = Module()
+        if spec.get("local"):
+            from amaranth.hdl import ClockDomain
+            m.domains += ClockDomain(spec["local"], local=True)
         for st in spec["stmts"]:
             a, b = sigs[st["a"]], sigs[st["b"]]
             rhs = {"+": a + b, "^": a ^ b, "&": a & b, "mux": Mux(a[0], b, a), "cat": Cat(a, b)}[st["op"]]
@@ -274,6 +279,8 @@ def run_hashseed(case, res, dig, stats):
         txt = json.dumps(r)
         if '"name": null' in txt:
             P["anonymous_submodule"] += 1
+        if '"local": "' in txt:
+            P["local_domain"] = P.get("local_domain", 0) + 1
         names = [s["name"] for s in r["sigs"]]
         if len(set(names)) < len(names):
             P["name_clash"] += 1
@@ -300,6 +307,10 @@ def run_hashseed(case, res, dig, stats):
             inproc2.append("EXC:" + type(e).__name__)
     for i, r in enumerate(recipes):
         ds = {hs: results[hs][i] for hs in results}
+        excs = sorted({v for v in list(ds.values()) + [inproc1[i]] if v.startswith("EXC:")})
+        if excs:
+            # recipes are legal by construction: a design that cannot be converted is a finding in itself
+            raise Violation("legal_design_rejected", i, {"recipe_index": i, "exceptions": excs})
         if len(set(ds.values())) > 1:
             raise Violation("rtlil_differs_across_hash_seeds", i,
                             {"recipe_index": i, "digests": {str(k): v[:16] for k, v in ds.items()},
